@@ -186,6 +186,57 @@ Section Secure.
     destruct (read_body zres kc use2 b0); cbn; repeat split; auto; intros X; congruence.
   Qed.
 
+  (* ---- per-message swap ---- *)
+  Notation serve_call := (serve_call key V zarg mar unm enc dec keyver wrap unwrap).
+  Notation serve_call_sw := (serve_call_sw key V zarg mar unm enc dec keyver wrap unwrap).
+  Notation serve_seq := (serve_seq key V zarg mar unm enc dec keyver wrap unwrap).
+
+  Lemma serve_call_sw_empty ks xs xa w h :
+    fst (serve_call_sw ks (mkSwap false false) xs xa w h) = serve_call ks xs xa w h.
+  Proof.
+    unfold Secure.serve_call_sw, Secure.serve_call. destruct (pre_read xs xa) as [[use1 acc1] m1].
+    cbn [sw_acc sw_raw orb].
+    destruct (read_body zarg ks use1 w); try reflexivity.
+    destruct use1; cbn [negb andb].
+    - destruct (negb (h_ok V h)); [reflexivity|].
+      destruct (pre_write ks true (h_secure V h) acc1 (h_fun V h v)); [|reflexivity].
+      destruct (wire_body b); reflexivity.
+    - destruct (negb (h_ok V h)); [reflexivity|].
+      destruct (pre_write ks true (h_secure V h) acc1 (h_fun V h v)); [|reflexivity].
+      destruct (wire_body b); reflexivity.
+  Qed.
+
+  (* every message is served from the session swap alone: no message's plugin entries reach a
+     later message *)
+  Lemma serve_seq_independent ks S ms :
+    serve_seq false ks S ms =
+    map (fun m => let '(xs, xa, w, h) := m in fst (serve_call_sw ks S xs xa w h)) ms.
+  Proof.
+    induction ms as [|[[[xs xa] w] h] r IH]; cbn [Secure.serve_seq map]; [reflexivity|].
+    destruct (serve_call_sw ks S xs xa w h) as [o S']. cbn [fst]. rewrite IH. reflexivity.
+  Qed.
+
+  Lemma serve_seq_fresh_session ks ms :
+    serve_seq false ks (mkSwap false false) ms =
+    map (fun m => let '(xs, xa, w, h) := m in serve_call ks xs xa w h) ms.
+  Proof.
+    rewrite serve_seq_independent. apply map_ext. intros [[[xs xa] w] h]. apply serve_call_sw_empty.
+  Qed.
+
+  (* the handler's returned status and the hook's test, composed: whatever the kind of handler, a
+     nil status and a non-nil status with code OK both leave ctx.Status() nil *)
+  Lemma ok_status_object_is_ok h : h_ret V h <> RetErr -> h_ok V h = true.
+  Proof. unfold h_ok, router_sets_stat. destruct (h_ret V h); intros Hn; try reflexivity. exfalso. apply Hn. reflexivity. Qed.
+
+  Lemma h_ok_iff h : h_ok V h = true <-> h_ret V h <> RetErr.
+  Proof.
+    split; [|apply ok_status_object_is_ok].
+    unfold h_ok, router_sets_stat. destruct (h_ret V h); cbn; intros E; try discriminate; intros X; discriminate.
+  Qed.
+
+  Lemma err_status_not_ok h : h_ret V h = RetErr -> h_ok V h = false.
+  Proof. unfold h_ok, router_sets_stat. intros ->. reflexivity. Qed.
+
   (* no marker anywhere: the plugin is invisible, for any pair of keys *)
   Lemma unmarked_is_plain kc ks q h :
     is_lit (q_secure V q) "true" = false -> is_lit (q_accept V q) "true" = false ->
@@ -365,6 +416,21 @@ Lemma encrypted_request_clear_reply :
     c_rep_wire bytes (toy_call q h) = Some (str "res").         (* the result, in clear *)
 Proof.
   exists (mkReq bytes (Some (str "true")) (Some (str "false")) (str "arg")),
-         (mkHandler bytes (fun _ => str "res") true None).
+         (mkHandler bytes (fun _ => str "res") KStruct RetNil None).
   vm_compute. auto 10.
 Qed.
+
+(* The variant in which the context uses the session's swap map itself: the accept entry of an
+   encrypted call survives and the NEXT, unmarked call on the session gets an enveloped reply. *)
+Definition toy_seq (share : bool) (ms : list (marker * marker * bytes * handler bytes)) : list (serve_obs bytes) :=
+  serve_seq unit bytes [] (fun v : bytes => Some v) (fun b : bytes => Some b)
+            (fun (_ : unit) (x : bytes) => x) (fun (_ : unit) (x : bytes) => Some x)
+            (fun _ : unit => str "v") (fun v c : bytes => Some (v ++ c)) toy_unwrap share tt (mkSwap false false) ms.
+
+Lemma shared_swap_leaks :
+  let h := mkHandler bytes (fun _ => str "res") KStruct RetNil None in
+  let ms := [(Some (str "true"), None, str "varg", h); (None, None, str "arg", h)] in
+  map (s_rep_wire bytes) (toy_seq false ms) = [Some (str "vres"); Some (str "res")] /\
+  map (s_rep_wire bytes) (toy_seq true ms) = [Some (str "vres"); Some (str "vres")] /\
+  map (s_rep_secure bytes) (toy_seq true ms) = [Some (str "true"); Some (str "true")].
+Proof. vm_compute. auto. Qed.
